@@ -314,6 +314,11 @@ def build_ops():
     _op("cable.wires=.held", ["C", ("held",)], _setattr("wires"), ("_wires",))
     _op("port.pins=.held", ["P", ("held",)], _setattr("pins"), ("_pins",))
     _op("definition.cables=.held", ["D", ("held",)], _setattr("cables"), ("_cables",))
+    _op("definition.ports=.held", ["D", ("held",)], _setattr("ports"), ("_ports",))
+    _op("definition.children=.held", ["D", ("held",)], _setattr("children"), ("_children",))
+    _op("library.definitions=.held", ["L", ("held",)], _setattr("definitions"), ("_definitions",))
+    _op("netlist.libraries=.held", ["N", ("held",)], _setattr("libraries"), ("_libraries",))
+    _op("wire.pins=.held", ["W", ("held",)], _setattr("pins"), ("_pins",))
     # compound constructors given a properties dictionary (an identifier, and a user key)
     def _props(v):
         return None if v is None else {"EDIF.identifier": v, "k": [v]}
